@@ -404,7 +404,10 @@ func (multiSource *MultiSource) findChanges(depDataset *server.Dataset, depSince
 	}
 
 	ids := make([]uint64, 0)
-	continuation, err := depDataset.ProcessChanges(depSince.AsIncrToken(), batchSize, multiSource.LatestOnly,
+	// the changes of a dependency are walked version by version also with LatestOnly: the look-back for links
+	// that a change has removed starts from the page the removing version is on. Reading only the newest
+	// version of an entity skipped that version, and the main entities it had pointed to were never emitted
+	continuation, err := depDataset.ProcessChanges(depSince.AsIncrToken(), batchSize, false,
 		func(entity *server.Entity) {
 			ids = append(ids, entity.InternalID)
 		})
